@@ -89,6 +89,9 @@ func safeExec(w *World, p int, op Op) (o Obs) {
 // Norm replaces nil slices by empty ones so the trace never contains JSON null (the TLA+
 // Json module cannot represent it).
 func (o Op) Norm() Op {
+	if o.Op == "password" && o.Grant == nil { // a password operation without the field: the application grants what was requested
+		o.Grant = append([]string{}, o.Scopes...)
+	}
 	for _, p := range []*[]string{&o.Scopes, &o.Grant, &o.Aud, &o.XScope, &o.XAud, &o.Need} {
 		if *p == nil {
 			*p = []string{}
